@@ -5,6 +5,7 @@ import Pk.Predict
 import Pk.Score
 import Pk.Config
 import Pk.Tsvd
+import Pk.Names
 /-! Line-protocol driver for the Mathlib-free model: one request per line on stdin, one reply per
 line on stdout.  The harness (`/verif/harness`) sends the same cases to the real pykoop and diffs. -/
 open Pk
@@ -249,6 +250,21 @@ def cmdTsvd : P String := do
   | .valueError => pure "err ValueError"
   | .opaque => pure "opaque"
 
+/-- `names <p|l> <symbols 0|1> <fitEp 0|1> <callEp n|0|1> nx nu <stage> <n | k name..>`; reply is TAB separated -/
+def cmdNames : P String := do
+  let f ← tok
+  let fmt : Fmt := if f == "l" then .latex else .plain
+  let sym ← pBool; let fitEp ← pBool; let callEp ← pOptBool
+  let nx ← pNat; let nu ← pNat
+  let s ← pStage
+  let g ← tok
+  let given ← if g == "n" then pure none else (do
+    match g.toNat? with
+    | some k => do let ns ← pMany k tok; pure (some ns)
+    | none => throw "given names expected")
+  withFit nx nu s fun _ => do
+    pure ("ok\t" ++ "\t".intercalate (featureNamesOut s (nx, nu) fitEp given sym fmt callEp))
+
 def intCells : Cells Int := ⟨0, Int.toNat, Int.ofNat⟩
 
 def pRaw : P (Raw Int) := do
@@ -305,6 +321,7 @@ def dispatch : P String := do
   | "predict" => cmdPredict
   | "traj" => cmdTraj
   | "tsvd" => cmdTsvd
+  | "names" => cmdNames
   | "config" => cmdConfig
   | "cprog" => cmdCProg
   | "weights" => cmdWeights
